@@ -23,6 +23,30 @@ def text_pieces(t, ex=None, p=None):
     r = fmt_parts(t, ex, p)
     if r is not None:
         return r
+    # `X(..).to_string()` of a type of the crate with its own Display: what that impl writes for this value
+    if ex is not None and p is not None and ex.facts is not None and t is not None:
+        v = t
+        n_ = 0
+        while v[0] in ("ref", "deref") and n_ < 6:
+            v2 = ex.deref_val(p, v) if v[0] == "ref" else v[1]
+            if v2 == v:
+                break
+            v = v2
+            n_ += 1
+        if v[0] == "adt" and not str(v[1]).startswith("std::") and not str(v[1]).startswith("core::") and not str(v[1]).startswith("alloc::"):
+            tyname = str(v[1]).split("::")[-1]
+            dfs = [f for f in ex.facts.fns.values() if re.search(r"<(\w+::)*%s(<.*>)? as std::fmt::Display>::fmt$" % re.escape(tyname), f.name)]
+            if len(dfs) == 1:
+                exd = S.Engine(dfs[0], ex.facts, ex.model, cut_edges=dfs[0].back_edges(), desugar=None)
+                ip = p.fork()
+                ip.end = None
+                ip.locals[(exd.fid, 1)] = ("ref", ("loc", v, ()), False)
+                ip.locals[(exd.fid, 2)] = ("sym", "FORMATTER")
+                rs_ = [q for q in exd.run(0, ip) if q.end and q.end[0] == "return"]
+                if len(rs_) == 1:
+                    rr = fmt_parts(rs_[0].end[1], exd, rs_[0])
+                    if rr is not None:
+                        return rr
     lits, vals = [], []
 
     def walk(x, depth=0):
@@ -216,6 +240,10 @@ def analyze(ctx, want):
                         if v_[0] == "adt" and len(v_[3]) == 2:
                             node_ranges.add((S.fstr(v_[3][0]), S.fstr(v_[3][1])))
                 for e_ in p.events:
+                    if e_[0] == "call" and re.search(r"iter::Enumerate<.*> as std::iter::Iterator>::next$", e_[2]) and idv is not None and re.search(r"item@bb%d\)?\.0$" % e_[1], S.fstr(idv)):
+                        src_ = e_[7][0] if len(e_) > 7 else e_[3][0]
+                        node_ranges.add(("0", "enumerate:" + S.fstr(ex.deref_val(p, src_) if src_[0] == "ref" else src_)))
+                for e_ in p.events:
                     if e_[0] in ("iter-item",) and idv is not None and ("index@bb%d" % e_[1]) in S.fstr(idv):
                         node_ranges.add(("0", "enumerate:" + S.fstr(e_[3])))
             zero = [(c, o) for c, o in p.conds if c[0] == "binop" and c[1] == "Eq" and ("int", 0) in (c[2], c[3])]
@@ -247,7 +275,7 @@ def analyze(ctx, want):
         if ed:
             edge_seen += 1
             e = ed[0]
-            f1, f2 = fmt_parts(argval(e, 1), ex, p), fmt_parts(argval(e, 2), ex, p)
+            f1, f2 = text_pieces(argval(e, 1), ex, p), text_pieces(argval(e, 2), ex, p)
             lab = fmt_parts(argval(sl[-1], 1), ex, p) if sl else None
             ok = f1 is not None and f2 is not None and len(f1[1]) == 2 and len(f2[1]) == 2
             if ok:
